@@ -268,6 +268,9 @@ def run(ctx):
           # white space between two inline elements inside a paragraph of the body
           ('<div class="admonition">\n<p class="title">Keys</p>\n<p>Press <kbd>Ctrl</kbd> <kbd>C</kbd> then <em>a</em> <em>b</em></p>\n</div>\n',
            "```{admonition} Keys\n:class: admonition\nPress <kbd>Ctrl</kbd> <kbd>C</kbd> then <em>a</em> <em>b</em>\n```\n", ["html_admonition"]),
+          # attributes written without a value are empty
+          ('<img src="a.png" alt width="10px">\n', "```{image} a.png\n:alt:\n:width: 10px\n```\n", ["html_image"]),
+          ('<div class="admonition tip" name>\n<p class="title">T</p>\nbody\n</div>\n', "```{admonition} T\n:class: admonition tip\n:name:\nbody\n```\n", ["html_admonition"]),
           # an image with an EMPTY alt text inside an admonition body (the body is re-rendered from the tree and parsed again)
           ('<div class="admonition tip">\n<p class="title">Layout</p>\n<p>A divider <img src="d.png" alt="" width="80px"> here</p>\n</div>\n',
            "```{admonition} Layout\n:class: admonition tip\nA divider <img src=\"d.png\" alt=\"\" width=\"80px\"> here\n```\n", ["html_admonition", "html_image"]),
